@@ -17,12 +17,12 @@ UTF8_SAMPLES = ['', 'a', 'TITLE=x', 'ARTIST=Ünïcödé', 'k=€\U0001F600', 'WA
 # ------------------------------------------------------------------------------------------------
 def streaminfo_lit(rng, extreme=False):
     bps = rng.choice([1, 2, 8, 16, 24, 32, rng.randint(1, 32)])
-    ch = rng.choice([1, 2, 8, rng.randint(1, 8)])
-    rate = rng.choice([0, 1, 44100, 1048575, rng.randint(0, 1048575)])
-    total = rng.choice([0, 1, 39731748, 2 ** 36 - 1, rng.randint(0, 2 ** 36 - 1)])
+    ch = rng.choice([1, 2, 8, rng.randint(1, 8), 9 if rng.random() < 0.1 else 3])
+    rate = rng.choice([0, 1, 44100, 1048575, rng.randint(0, 1048575), 1048576 if rng.random() < 0.1 else 8000])
+    total = rng.choice([0, 1, 39731748, 2 ** 36 - 1, rng.randint(0, 2 ** 36 - 1), 2 ** 36 if rng.random() < 0.1 else 7])
     mn = rng.choice([0, 16, 4096, 65535]); mx = rng.choice([0, 16, 4096, 65535])
-    fmin = rng.choice([0, 1, 2 ** 24 - 1, rng.randint(0, 2 ** 24 - 1)]); fmax = rng.choice([0, 1, 2 ** 24 - 1, rng.randint(0, 2 ** 24 - 1)])
-    md5 = rng.choice(['none', bytes(rng.randrange(256) for _ in range(16)).hex(), '00' * 15 + '01'])
+    fmin = rng.choice([0, 1, 2 ** 24 - 1, rng.randint(0, 2 ** 24 - 1)]); fmax = rng.choice([0, 1, 2 ** 24 - 1, rng.randint(0, 2 ** 24 - 1), 2 ** 24 if rng.random() < 0.1 else 9])
+    md5 = rng.choice(['none', 'none', bytes(rng.randrange(256) for _ in range(16)).hex(), '00' * 15 + '01', '00' * 16 if rng.random() < 0.15 else 'none'])
     return f'S:{mn}:{mx}:{fmin}:{fmax}:{rate}:{ch}:{bps}:{total}:{md5}'
 
 def utf8_hex(rng):
@@ -44,7 +44,7 @@ def seektable_lit(rng):
     if rng.random() < 0.05 and pts:               # defined after placeholder: cannot be constructed
         pts.append('7.7.7')
     if rng.random() < 0.05:
-        pts = [f'{2 ** 64 - 2}.0.0'] + ['X']
+        pts = [f'{2 ** 64 - rng.choice([1, 2])}.{rng.choice([0, 5])}.{rng.choice([0, 1])}'] + ['X'] * rng.choice([0, 1])
     return 'T:' + (','.join(pts) if pts else '-')
 
 def picture_lit(rng, ptype=None):
